@@ -38,14 +38,19 @@ TEXT = {
     "C12": ("exploration", "Thread world: real threads parked and released one at a time by a seeded baton scheduler with pre-emption at every "
             "traced line inside the library, shared pool with related inputs, every outcome compared with the call evaluated alone on a "
             "reset library state; single-thread histories with repeats; fresh-interpreter configuration leg (pre-imports, stdout encodings, "
-            "hash seeds); deep argument snapshots around every verifier/validator call in the other worlds; wrap aliasing probes.",
+            "hash seeds, library first imported under a capture of the standard streams); deep argument snapshots around every verifier/validator "
+            "call in the other worlds; wrap aliasing probes; in a third of the envelope / chain / delegation runs every library call is also "
+            "made by a forked copy of the process on freshly imported library state and the two outcomes must agree.",
             "Pre-emption granularity is the traced line (opcode events are not replay-stable under the adaptive interpreter and were "
-            "dropped); a thread switch inside one source line or inside a C call is not modelled, and runs use at most 16 keys - the one "
-            "independent seeded change that escaped (seeded/C13-C: eviction race in a 128-entry cache) needs both.", "sec. 7 C12, 13.8"),
+            "dropped); a thread switch inside one source line or inside a C call is not modelled.  Of the independent seeded changes, "
+            "seeded/C13-C (eviction race of a 128-entry cache inside one line) escapes and seeded/C12-H (512-entry cache, window between "
+            "two lines) is found by about half of the seeds in the quick tier.", "sec. 7 C12, 13.8, 13.13"),
     "C17": ("exploration", "Real processes for each entry point (console script, python -m conda_content_trust, python -m "
             "conda_content_trust.cli) x file pairs drawn from simulated histories (valid successors, key_mgr under root, every "
-            "attack-catalogue document, malformed / empty / missing / directory / BOM files) x seeded environments; exit status and "
-            "success line compared with the in-process library verdict on the same files; sign-artifacts with good and unusable keys.",
+            "attack-catalogue document, key_mgr documents delegating other role names, raw- and OpenPGP-signed documents of every declared "
+            "type, malformed / empty / missing / directory / BOM files, paths through symlinks and '..') x seeded environments; exit status "
+            "and success line compared with the in-process library verdict on the same files; sign-artifacts with good and unusable keys, "
+            "on files signed before and patched, under a file-size limit.",
             "An unwritable stdout is out of scope. gpg-sign / gpg-key-lookup run as real processes against a stand-in securesystemslib package "
             "(harness OpenPGP packet parser + the real gpg binary) put on PYTHONPATH, and without it (must exit non-zero, file unchanged).",
             "sec. 7 C17"),
@@ -53,7 +58,9 @@ TEXT = {
             "event executed inside library frames, an I/O error or short read at every file-system operation, a failure of every "
             "callee-seam call (signing device per artifact, GnuPG create_signature / export_pubkey, optional dependency absent), plus "
             "malformed inputs and bad keys; after every failed call the target's bytes must be identical, and on every run the event "
-            "order computed -> serialized -> opened -> written -> closed must hold. Scenarios themselves are sampled.",
+            "order computed -> serialized -> opened -> written -> closed must hold; whatever the code does on the opened output before its "
+            "first write (taking a lock ...) is a judged fault point too. Scenarios themselves (documents, keys, target names, stale siblings) "
+            "are sampled.",
             "Line-event granularity; faults inside C extensions are represented at the calling line and by the callee seams; "
             "output-phase faults are outside the property's wording and only counted.", "sec. 7 C18"),
 }
